@@ -1,0 +1,39 @@
+// Copyright Suneido Software Corp. All rights reserved.
+// Governed by the MIT license found in the LICENSE file.
+
+//go:build verif
+
+package query
+
+import "math/rand/v2"
+
+// Accessors for external verification harnesses (build tag verif only).
+// They expose the existing test knobs of the optimizer
+// and the contents of Fixed. Add-only, no behavior change.
+
+// VerifImpossible is the cost that means "no valid strategy"
+const VerifImpossible = impossible
+
+// VerifSetRandomBest sets randomBest (nil restores cost based choice)
+func VerifSetRandomBest(r *rand.Rand) {
+	randomBest = r
+}
+
+// VerifSetTicostAdj sets the temp index cost adjustment
+func VerifSetTicostAdj(n int) {
+	ticostAdj = n
+}
+
+// VerifSetJoinRev sets the join reversal cost adjustment
+func VerifSetJoinRev(n int) {
+	joinRev = n
+}
+
+// VerifFixed returns the columns and packed values of q.Fixed()
+func VerifFixed(q Query) (cols []string, vals [][]string) {
+	for _, f := range q.Fixed() {
+		cols = append(cols, f.col)
+		vals = append(vals, f.values)
+	}
+	return
+}
